@@ -741,6 +741,12 @@ func (i *instance) skipToRound(round uint64, chain *ECChain, justification *Just
 	metrics.currentRound.Record(context.TODO(), int64(i.current.Round))
 	metrics.skipCounter.Add(context.TODO(), 1, metric.WithAttributes(attrSkipToRound))
 
+	if i.current.Phase == QUALITY_PHASE {
+		// The QUALITY phase is cut short: conclude it with the votes received so far, so
+		// that the proposal carried into the new round is a candidate.
+		i.proposal = i.quality.FindStrongQuorumValueForLongestPrefixOf(i.input)
+		i.addCandidatePrefixes(i.proposal)
+	}
 	if justification.Vote.Phase == PREPARE_PHASE {
 		i.log("⚠️ swaying from %s to %s by skip to round %d", i.proposal, chain, i.current.Round)
 		i.addCandidate(chain)
